@@ -714,6 +714,7 @@ int
 ncclose(int cdfid)
 {
     NC *handle;
+    int status = 0;
 
     cdf_routine_name = "ncclose";
 
@@ -738,10 +739,14 @@ ncclose(int cdfid)
         }
     }
 
+    /* a failure while flushing and closing the HDF file is reported to the
+       caller once the slot in the file table has been released */
     if (handle->file_type == HDF_FILE)
-        hdf_close(handle);
+        if (hdf_close(handle) == FAIL)
+            status = -1;
 
-    NC_free_cdf(handle); /* calls fclose */
+    if (NC_free_cdf(handle) == FAIL) /* calls fclose */
+        status = -1;
 
     _cdfs[cdfid] = NULL; /* reset pointer */
 
@@ -755,7 +760,7 @@ ncclose(int cdfid)
             fprintf(stderr, "unable to reset _cdfs list\n");
             return -1;
         }
-    return 0;
+    return status;
 }
 
 int
